@@ -36,7 +36,7 @@ def generate(seed, tier):
                         positive=True if source != "none" else None, flexible=False if source in ("cpsat", "sequences") else None)
     if source == "cpsat" and n_ops(spec) > 9:
         source = "dispatcher"
-    names, style = gen_filter(rng, None, p_none=0.5)
+    names, style = gen_filter(rng, None, p_none=0.5, user=0.3)
     other_size = gen_instance(rng, sparse_ids=0.03, large=0.008, max_jobs=4, max_machines=4, max_ops=4) if rng.random() < 0.3 else None
     abandoned = [["dispatch", rng.randrange(64), rng.randrange(64), int(rng.random() < 0.5)] for _ in range(rng.randint(1, 4))] if rng.random() < 0.3 else []
     return {"prop": PROP, "cfg": {"instance": spec, "source": source, "filter": names, "filter_style": style, "abandoned": abandoned, "other_size": other_size, "from_blocks": rng.random() < 0.15, "rejected_requests": rng.random() < 0.2,
